@@ -174,6 +174,9 @@ type fakePool struct {
 	ch       chan struct{}
 	closed   int
 	rpcs     int
+	// configuration index (position in sim.cfgHist) being applied when the pool
+	// was dialled / closed; closedCfg < 0: not closed by an update
+	openedCfg, closedCfg int
 }
 
 type rpcRec struct {
@@ -181,6 +184,18 @@ type rpcRec struct {
 	name      string
 	wasClosed bool
 	seq       int
+	// concurrent bursts: configurations that may have been in effect while the
+	// RPC ran: [lower, upper] = [updates completed when it was invoked, updates
+	// started when it reached a pool]
+	conc         bool
+	lower, upper int
+}
+
+type lowKey struct{}
+
+type cfgRec struct {
+	mes map[string]MESpec
+	def string
 }
 
 //go:norace
@@ -188,7 +203,11 @@ func (p *fakePool) record(ctx context.Context) {
 	p.s.k.Yield("pool:rpc")
 	p.rpcs++
 	name, _ := grpcgcp.FromMEContext(ctx)
-	p.s.rpcs = kern.Push(p.s.rpcs, rpcRec{pool: p, name: name, wasClosed: p.closed > 0, seq: len(p.s.rpcs)})
+	rec := rpcRec{pool: p, name: name, wasClosed: p.closed > 0, seq: len(p.s.rpcs)}
+	if lo, ok := ctx.Value(lowKey{}).(int); ok {
+		rec.conc, rec.lower, rec.upper = true, lo, len(p.s.cfgHist)-1
+	}
+	p.s.rpcs = kern.Push(p.s.rpcs, rec)
 }
 
 //go:norace
@@ -247,6 +266,9 @@ func (p *fakePool) WaitForStateChange(ctx context.Context, src connectivity.Stat
 //go:norace
 func (p *fakePool) Close() error {
 	p.s.k.Yield("pool:Close")
+	if p.closed == 0 {
+		p.closedCfg = p.s.curUpd
+	}
 	p.closed++
 	p.setState(connectivity.Shutdown)
 	return nil
@@ -294,6 +316,13 @@ type sim struct {
 	monBase   float64
 	hintOp    int
 	hintN     uint64
+
+	// concurrent bursts: history of accepted configurations, the one being
+	// applied by the (serialized) update task and the number of completed updates
+	cfgHist  []cfgRec
+	curUpd   int
+	updDone  int
+	judgedTo int
 }
 
 //go:norace
@@ -327,7 +356,7 @@ func (s *sim) dial(ctx context.Context, target string, dopts ...grpc.DialOption)
 		s.nDialFail++
 		return nil, errors.New("simulated dial failure for " + target)
 	}
-	p := &fakePool{s: s, endpoint: target, id: len(s.pools), state: connectivity.Idle, ch: make(chan struct{})}
+	p := &fakePool{s: s, endpoint: target, id: len(s.pools), state: connectivity.Idle, ch: make(chan struct{}), openedCfg: s.curUpd, closedCfg: -1}
 	s.pools = kern.Push(s.pools, p)
 	return p, nil
 }
@@ -534,6 +563,56 @@ func (s *sim) accept(o OptsSpec) {
 		s.prevME[k] = v
 	}
 	s.def = meNames[o.Default%3]
+	h := cfgRec{mes: map[string]MESpec{}, def: s.def}
+	for k, v := range s.mes {
+		h.mes[k] = v
+	}
+	s.cfgHist = append(s.cfgHist, h)
+}
+
+// judgeConcurrent: schedule-independent routing facts for RPCs that ran while
+// updates and monitors were in flight. The pool an RPC went through must belong
+// to a configuration that can have been in effect during the RPC: not a pool
+// closed by an update that had returned before the RPC was even invoked, and an
+// endpoint of the MultiEndpoint the context selects (or of the default one) in
+// one of those configurations.
+//
+//go:norace
+func (s *sim) judgeConcurrent() {
+	for ; s.judgedTo < len(s.rpcs); s.judgedTo++ {
+		r := s.rpcs[s.judgedTo]
+		if !r.conc || s.stop {
+			continue
+		}
+		s.res.Count("probe:concurrent_rpc_judged", 1)
+		if r.lower != r.upper {
+			s.res.Count("probe:concurrent_rpc_overlapped_update", 1)
+		}
+		p := r.pool
+		if p.closedCfg >= 0 && p.closedCfg <= r.lower {
+			s.vio("C15", "rpc-on-pool-closed-before-invocation", "concurrent", fmt.Sprintf("RPC with name %q was invoked after update #%d had returned (updates in flight up to #%d) and went through pool %s#%d, which update #%d had closed", r.name, r.lower, r.upper, p.endpoint, p.id, p.closedCfg))
+			continue
+		}
+		ok := false
+		var seen []string
+		for j := r.lower; j <= r.upper && j < len(s.cfgHist) && !ok; j++ {
+			c := s.cfgHist[j]
+			me, known := c.mes[r.name]
+			if !known {
+				me = c.mes[c.def]
+			}
+			eps := s.endpointsOf(me)
+			seen = append(seen, fmt.Sprint(eps))
+			for _, e := range eps {
+				if e == p.endpoint {
+					ok = true
+				}
+			}
+		}
+		if !ok {
+			s.vio("C15", "rpc-outside-multiendpoint", "concurrent", fmt.Sprintf("RPC with name %q went to %s, which is not an endpoint of the selected MultiEndpoint in any configuration that can have been in effect (#%d..#%d: %s)", r.name, p.endpoint, r.lower, r.upper, strings.Join(seen, " | ")))
+		}
+	}
 }
 
 //go:norace
@@ -769,7 +848,12 @@ func (s *sim) exec(o Op) {
 			// concurrent: valid updates only, racing with RPCs and monitors
 			sp.BadDef, sp.EmptyME, sp.DialFail = false, 0, 0
 			s.dialN, s.dialFail = 0, 0
-			s.call("Update", 1, func() { _ = s.gme.UpdateMultiEndpoints(s.buildOpts(sp)) })
+			idx := len(s.cfgHist)
+			s.call("Update", 1, func() {
+				s.curUpd = idx
+				_ = s.gme.UpdateMultiEndpoints(s.buildOpts(sp))
+				s.updDone = idx
+			})
 			s.accept(sp) // updates are serialized (group 1): the model follows their order
 			s.res.Count("op:update", 1)
 			s.settle(o)
@@ -861,12 +945,13 @@ func (s *sim) exec(o Op) {
 		}
 		s.res.Count("op:rpc", 1)
 		if s.plan.Concurrent {
-			ctx := context.Background()
+			ctx := context.WithValue(context.Background(), lowKey{}, s.updDone)
 			if name != "" {
 				ctx = grpcgcp.NewMEContext(ctx, name)
 			}
 			s.call("rpc", 0, func() { _ = s.gme.Invoke(ctx, "/svc/M", nil, nil) })
 			s.settle(o)
+			s.judgeConcurrent()
 			for _, r := range s.rpcs {
 				if r.wasClosed {
 					// under concurrency an RPC may legitimately race with the closing of its pool
@@ -945,6 +1030,10 @@ func (s *sim) configCheck() {
 func (s *sim) heal() {
 	s.k.Quiesce()
 	s.kernelFailure()
+	if s.stop {
+		return
+	}
+	s.judgeConcurrent()
 	if s.stop {
 		return
 	}
